@@ -66,9 +66,8 @@ int main(int argc, char** argv) {
     }
     for (int w = 0; w < 3; w++) { check(d, probe(d, w), "dense"); check(d, scaled(probe(d, w), 1e100), "dense-scaled"); check(d, scaled(probe(d, w), 1e-100), "dense-scaled"); }
     // identity component and traceless part of independent magnitudes (incl. ones whose squares leave the double range)
-    for (double c0 : {0.0, 1.0, -3.0, 1e8, 2e154, -1e160, 1e165, 1e-160, 3e300}) for (double tm : {1.0, 1e-8, 1e8, 1e140, 1e152, 1e154, 1e-154, 1e-200}) {
+    for (double c0 : {0.0, 1.0, -3.0, 1e5, 1e8, 2e154, -1e160, 1e165, 1e-160, 3e300}) for (double tm : {1.0, 1e-8, 1e8, 1e140, 1e152, 1e154, 1e-154, 1e-200, 1e-304, 3e-308}) {
       if (!(std::fabs(c0) <= 1e300 / 8 && tm <= 1e300 / 8)) { if (std::fabs(c0) > 1e300 / 8 && tm > 1e150) continue; }
-      if (c0 != 0 && (tm / std::fabs(c0) < 1e-13)) continue;   // a traceless part below the rounding level of the identity part is not resolvable: residual is judged relative to max|M|
       std::vector<double> c = scaled(probe(d, 1), tm / maxabs(probe(d, 1))); c[0] = c0;
       check(d, c, "identity-plus-traceless");
     }
